@@ -10,7 +10,7 @@ import (
 func init() {
 	eng.Register(&eng.Check{
 		ID:          "C05",
-		Rule:        "E1 bounded product over configurations: selector paths of depth 1-4 with the missing step at leaf / intermediate / root under parents of every kind (string-keyed and other maps, interface- and pointer-wrapped, struct, slice, scalar), directly and through quantifier value aliases x 8 operators + any/all x unknown-value settings {none, int 0, int 1, \"\", \"a\", true, 1.5} x hook {none, unwrap-wrapper (values behind a wrapper struct at parent and leaf positions)}; oracles: (a,b) reference interpreter (absent-key table, error cases); (c) two-run: Evaluate(e,d,unknown=v) == Evaluate(e,d+) where d+ is d with v inserted at the absent path (when the absent step is under a map[string]interface{}); (d) when the reference sees no absent key/field, the outcome is identical with and without an unknown value. Distinct by construction; non-trivial = the reference met an absent key/field (NOTFOUND) in the case.",
+		Rule:        "E1 bounded product over configurations: selector paths of depth 1-4 with the missing step at leaf / intermediate / root under parents of every kind (string-keyed and other maps, interface- and pointer-wrapped, struct, slice, scalar), directly and through quantifier value aliases x 8 operators + any/all x unknown-value settings {none, int 0, int 1, json.Number 1e3, \"\", \"a\", true, 1.5} x hook {none, unwrap-wrapper (values behind a wrapper struct at parent and leaf positions)}; oracles: (a,b) reference interpreter (absent-key table, error cases); (c) two-run: Evaluate(e,d,unknown=v) == Evaluate(e,d+) where d+ is d with v inserted at the absent path (when the absent step is under a map[string]interface{}); (d) when the reference sees no absent key/field, the outcome is identical with and without an unknown value. Distinct by construction; non-trivial = the reference met an absent key/field (NOTFOUND) in the case.",
 		Assumptions: []string{"reference interpreter as in C01", "unknown values drawn from scalar kinds (non-scalar unknown values are outside the universe)"},
 		Run:         runC05,
 	})
@@ -207,7 +207,8 @@ func runC05(c *eng.Ctx) {
 	for i, d := range ds {
 		data[i] = Build(d).Interface()
 	}
-	unknowns := []*Node{nil, NInt(KInt, false, 0), one, str(""), str("a"), NBool(false, true), NFloat(KFloat64, false, 1.5)}
+	// a json.Number unknown value is a NUMBER, exactly as it is when a document holds it (position 3: inside the quick tier of both passes)
+	unknowns := []*Node{nil, NInt(KInt, false, 0), one, NJSON("1e3"), str(""), str("a"), NBool(false, true), NFloat(KFloat64, false, 1.5)}
 	c.MaxOf("expressions", int64(len(es)))
 	c.MaxOf("documents", int64(len(ds)))
 	base := make([]obsT, len(ds))
@@ -225,7 +226,7 @@ func runC05(c *eng.Ctx) {
 			hook := HookNone
 			if ui >= len(unknowns) {
 				hook = HookUnwrap // second pass: the same unknown-value settings under the unwrap hook
-				if !c.Thorough() && ui%len(unknowns) > 2 {
+				if !c.Thorough() && ui%len(unknowns) > 3 {
 					continue
 				}
 			}
